@@ -2,6 +2,7 @@
 
 R1 every loop makes progress and every returned token consumed text;
 R2 the cursor only moves forward, in whole characters, and tokens tile."""
+import re
 from ..core import callee_of, expr_walk, expr_str, return_defs, short, op_place, MissingAnchor
 from .. import awrite
 from ..pathq import natural_loops, blocks_after, exists_path_avoiding, try_continue_block
@@ -213,6 +214,28 @@ def check_print_read(rep, fx):
                 'a test of the collected digits decides whether from_str_radix sees them' if vetted else
                 '%s hands the collected text to from_str_radix untested: that function accepts a sign of its own, so `0x-5` reads as -5 and '
                 '`0b+1` as 1 instead of being rejected' % short(fn), fn, t.get('at'))
+    # (d) the number that was parsed is the number that is pushed: between from_str_radix / parse and the literal there is no
+    #     narrowing or sign-changing `as` cast and no wrapping arithmetic (`mag as i128`, `wrapping_neg` read 2^127 as i128::MIN)
+    from .. import casts
+    from .c08 import build_zone
+    lexfns = [fn for fn in fx.fns if fn.startswith('lex::')]
+    parsed = lambda e: any(isinstance(x, tuple) and x[0] == 'call' and (x[1].endswith('::from_str_radix') or x[1].endswith('::parse')
+                                                                        or x[1].endswith('FromStr>::from_str')) for x in expr_walk(e))
+    badc = [(fn, frm, to, at, why) for (fn, frm, to, at, exact, why) in casts.lossy_user_casts(fx, lexfns, build_zone, type_of_operand, is_user=parsed)
+            if not exact]
+    wraps = []
+    for fn in lexfns:
+        f = fx.fns[fn]
+        for bb, t in f.calls():
+            c = callee_of(t) or ''
+            if re.search(r'::(wrapping|overflowing|unchecked)_\w+$', c) and any(parsed(f.expr_of_operand(a)) for a in t['args']):
+                wraps.append((fn, short(c), t.get('at')))
+    okd = not badc and not wraps
+    rep.add('C16.R3', 'C16.R3:literal-value-not-wrapped', okd,
+            'no lossy cast or wrapping operation between the parser and the literal' if okd else
+            'the lexer passes a parsed number through %s: a literal just outside the i128 range reads as a different number instead of being rejected'
+            % ', '.join(['`as %s` on %s in %s' % (to, frm, short(fn)) for (fn, frm, to, at, why) in badc] + ['%s in %s' % (c, short(fn)) for fn, c, at in wraps]),
+            (badc[0][0] if badc else wraps[0][0] if wraps else 'lex::Lex::next'), (badc[0][3] if badc else wraps[0][2] if wraps else None))
     missing = sorted(printed - read)
     rep.add('C16.R3', 'C16.R3:every-printed-radix-has-a-literal', not missing,
             'radixes printed for integers %s, radixes read %s' % (sorted(printed), sorted(read)) if not missing else
